@@ -21,13 +21,21 @@ Explicit-state search on the real `nemoguardrails.streaming.StreamingHandler`.
   oracle      per (text, config, mode, end protocol): the set of terminal `delivered` strings is a
               singleton; every terminal `completion` equals its `delivered`; the delivered string is one
               of the readings of "prefix and suffix removed, cut at the first stop sequence" (the three
-              operations in every order; nothing is demanded when the text does not start with the
-              prefix).  Whether the stream is terminated by a sentinel is counted, not demanded.
+              operations in every order; removing a prefix / suffix that is not there changes nothing, so
+              a text that never shows the configured prefix has a reference too; with several stop
+              sequences "first" = the occurrence that starts first or the one that is complete first).
+              Whether the stream is terminated by a sentinel is counted, not demanded.
   space       18 configs (prefix in {-, '  "', 'Bot message: "'} x suffix in {-, '"'} x stop in {[], ['"\n'],
               ['\nuser ']}) x 3 modes (direct push_chunk / LangChain callbacks / LangChain callbacks on a
               handler piped into a second one) x 2 end protocols each; texts = every character-prefix of
               every sequence of <= n symbols over {a, ", blank[, newline][, 'user ']}, free and behind the
               configured prefix (n: see bound()), plus every character-prefix of the realistic SHAPES.
+              Stop-list family (sl_configs): every ordered list of one or two distinct stop sequences over
+              {x, y} (<= 3 characters each, <= 4 [thorough: 5] together; up to exchanging x and y) - so
+              sequences that overlap themselves (xx, xxy), each other (xy / yx), contain each other
+              (x / xy), in both list orders - x suffix in {-, '"', 'y' (a suffix the stop sequences can
+              start with / contain)} x prefix in {-, '>'} x the 3 modes x 2 end protocols; texts = every
+              string of <= n characters over {a, x, y[, "]} (n: see sl_bound()), free and behind the prefix.
   classes     a violation's signature is  kind : where-it-first-went-wrong ; the second part comes from two
               monitors that ride along in the state (first call after which completion != delivered;
               first call that delivered text the handler might still have had to withhold) - it only
@@ -75,6 +83,46 @@ def configs():
     return [(p, s, st) for p in PREFIXES for s in SUFFIXES for st in STOPS]
 
 
+# ---- the stop-list family: stop configurations with structure (several stop sequences in either list
+# order; sequences that overlap themselves or each other, contain each other, start with the suffix)
+SL_CHARS = "xy"
+SL_PREFIXES = (None, ">")
+SL_SUFFIXES = (None, '"', "y")
+
+
+def sl_words(maxlen):
+    return ["".join(w) for n in range(1, maxlen + 1) for w in itertools.product(SL_CHARS, repeat=n)]
+
+
+def sl_stoplists(maxtotal, maxlen=3):
+    """every ordered list of one or two distinct words over {x, y} (each <= maxlen characters, together
+    <= maxtotal)"""
+    ws = sl_words(maxlen)
+    out = [(w,) for w in ws if len(w) <= maxtotal]
+    out += [(v, w) for v in ws for w in ws if v != w and len(v) + len(w) <= maxtotal]
+    return out
+
+
+def sl_configs(tier):
+    """the configurations of the stop-list family.  The text alphabet is symmetric in x and y, so of
+    each pair of stop lists that exchanging x and y maps onto each other only the one whose first word
+    starts with x is run - except with the suffix 'y', which breaks the symmetry."""
+    out = []
+    maxtotal = 4 if tier == "quick" else 5
+    for stop in sl_stoplists(maxtotal):
+        canonical = stop[0][0] == "x"
+        for suffix in SL_SUFFIXES:
+            if suffix != "y" and not canonical:
+                continue
+            for prefix in SL_PREFIXES:
+                out.append((prefix, suffix, stop))
+    return out
+
+
+def is_stoplist(cfg):
+    return bool(cfg[2]) and cfg[2] not in STOPS
+
+
 def alphabet(cfg):
     """Symbols the texts of a configuration are built from: a neutral letter, the quote and the
     blank (prefix / suffix characters), newline when a stop sequence is configured, and the macro
@@ -82,6 +130,10 @@ def alphabet(cfg):
     With a prefix configured there are two text families: free texts (prefix absent or only partly
     there) and  prefix + free text."""
     prefix, suffix, stop = cfg
+    if is_stoplist(cfg):
+        chars = set(SL_CHARS) | set("".join(stop)) | set(suffix or "")
+        assert "a" not in chars and not (set(prefix or "") & (chars | {"a"})), cfg
+        return ["a"] + sorted(chars)
     syms = ["a", '"', " "]
     if stop:
         syms.append("\n")
@@ -110,7 +162,29 @@ def bound(tier, k, family="free", mode="direct"):
     return n - {"free": 0, "short": 0, "long": 1, "absent": 2}[family] - (1 if mode == "pipe" else 0)
 
 
+def sl_bound(tier, cfg, family="free", mode="langchain"):
+    """max number of characters per text of the stop-list family (all its symbols are single characters).
+    family: "free" (no prefix configured), "lead" (characters after the prefix), "absent" (free texts while
+    a prefix is configured).  One less with the suffix 'y' (twice as many stop lists: no x/y symmetry), in
+    pipe mode, and - with the 4-character alphabet - in direct mode."""
+    k = len(alphabet(cfg))
+    if tier == "quick":
+        n = {3: 6, 4: 5}[k]
+    else:
+        n = {3: 7, 4: 6}[k]
+    n -= {"free": 0, "lead": 1, "absent": 3}[family]
+    if cfg[1] == "y":
+        n -= 1
+    if mode == "pipe" or (mode == "direct" and k == 4):
+        n -= 1
+    return max(n, 1)
+
+
 def families(cfg, tier, mode):
+    if is_stoplist(cfg):
+        if not cfg[0]:
+            return [("", sl_bound(tier, cfg, "free", mode))]
+        return [("", sl_bound(tier, cfg, "absent", mode)), (cfg[0], sl_bound(tier, cfg, "lead", mode))]
     k = len(alphabet(cfg))
     if not cfg[0]:
         return [("", bound(tier, k, "free", mode))]
@@ -134,13 +208,26 @@ def cfg_shape(cfg):
 
 
 # ------------------------------------------------------------------ reference
+def cut_points(t, stop):
+    """where 'the first stop sequence' of t starts.  With one stop sequence: its first occurrence.  With
+    several, two occurrences can overlap, and then 'first' has two readings: the occurrence that starts
+    first, and the occurrence that is complete first (what a generation that halts at a stop sequence
+    sees; when several are complete at the same character, any of them).  Both are accepted."""
+    occ = [(t.find(s), t.find(s) + len(s)) for s in stop if s in t]
+    if not occ:
+        return set()
+    first_end = min(e for _b, e in occ)
+    return {min(b for b, _e in occ)} | {b for b, e in occ if e == first_end}
+
+
 def readings(text, cfg):
     """Every reading of 'prefix and suffix removed and cut at the first stop sequence': the three
-    operations in every order.  None in the result = in that order the text does not start with the
-    prefix (nothing is demanded then)."""
+    operations in every order (and both readings of 'first', see cut_points).  Removing a prefix /
+    suffix that is not there changes nothing: a text that does not start with the configured prefix is
+    delivered with the suffix removed and cut at the first stop sequence."""
     prefix, suffix, stop = cfg
     ops = []
-    if prefix:
+    if prefix and text.startswith(prefix):
         ops.append("P")
     if suffix:
         ops.append("S")
@@ -148,22 +235,22 @@ def readings(text, cfg):
         ops.append("C")
     out = set()
     for order in itertools.permutations(ops):
-        t = text
+        ts = {text}
         for op in order:
-            if op == "P":
-                if t.startswith(prefix):
-                    t = t[len(prefix):]
+            nxt = set()
+            for t in ts:
+                if op == "P":
+                    nxt.add(t[len(prefix):] if t.startswith(prefix) else t)
+                elif op == "S":
+                    nxt.add(t[: len(t) - len(suffix)] if t.endswith(suffix) else t)
                 else:
-                    t = None
-                    break
-            elif op == "S":
-                if t.endswith(suffix):
-                    t = t[: len(t) - len(suffix)]
-            else:
-                cuts = [t.find(s) for s in stop if s in t]
-                if cuts:
-                    t = t[: min(cuts)]
-        out.add(t)
+                    cuts = cut_points(t, stop)
+                    if cuts:
+                        nxt.update(t[:c] for c in cuts)
+                    else:
+                        nxt.add(t)
+            ts = nxt
+        out |= ts
     return out
 
 
@@ -621,6 +708,29 @@ def _diff(got, want, cfg):
     return "differs"
 
 
+def _explain(got, text, cfg, rd):
+    """names how the one delivered string `got` misses every reading `rd` of the statement"""
+    prefix, suffix, stop = cfg
+    near = sorted(rd, key=lambda r: (_diff(got, r, cfg) == "differs", abs(len(r) - len(got)), r))[0]
+    if len(stop) > 1 and isinstance(got, str):
+        # the text cut at a stop sequence that is not the first one?
+        t = text[len(prefix):] if prefix and text.startswith(prefix) else text
+        ok = cut_points(t, stop)
+        if ok:
+            first_end = min(t.find(s) + len(s) for s in stop if s in t)
+            for s_ in stop:
+                b = t.find(s_)
+                if b < 0 or b in ok:
+                    continue
+                cut = t[:b]
+                kind = "cut-at-later-overlapping-stop" if b < first_end else "cut-at-later-stop"
+                if got == cut:
+                    return kind
+                if suffix and cut.endswith(suffix) and got == cut[: len(cut) - len(suffix)]:
+                    return kind + "-then-suffix-removed"
+    return _diff(got, near, cfg)
+
+
 # ------------------------------------------------------------------ explore one sub-trie
 def explore(task):
     cfg, mode, lead, root, nmax, own_from, val_mod = task
@@ -635,8 +745,11 @@ def explore(task):
         "traces_validated_against_impl": 0, "texts_with_unique_reading": 0,
         "texts_prefix_absent": 0, "texts_ambiguous_reading": 0, "handler_exceptions": 0,
         "groups_without_end_sentinel": 0, "violating_groups": 0,
-        "texts_where_pattern_logic_acted": 0,
+        "texts_where_pattern_logic_acted": 0, "prefix_absent_groups_off_reference": 0,
+        "prefix_absent_groups_judged_against_reference": 0,
+        "stoplist_texts": 0, "stoplist_texts_with_two_different_stops": 0,
     }
+    sl = is_stoplist(cfg)
     viol = {}      # signature -> [size, what, replay, n]
     samples = []
     # stack[j] = {state at offset j: [(i, state at offset i) = how it was first reached, ... last reached]}
@@ -737,14 +850,18 @@ def explore(task):
         if j > counts["max_text_len"]:
             counts["max_text_len"] = j
         rd = readings(text, cfg)
-        if None in rd:
+        if cfg[0] and not text.startswith(cfg[0]):
             counts["texts_prefix_absent"] += 1
-        elif len(rd) == 1:
+        if len(rd) == 1:
             counts["texts_with_unique_reading"] += 1
         else:
             counts["texts_ambiguous_reading"] += 1
-        if None not in rd and text not in rd:
+        if text not in rd:
             counts["texts_where_pattern_logic_acted"] += 1
+        if sl:
+            counts["stoplist_texts"] += 1
+            if len(cfg[2]) > 1 and sum(1 for st in cfg[2] if st in text) > 1:
+                counts["stoplist_texts_with_two_different_stops"] += 1
         validate = val_mod and (zlib.crc32(repr((text, cfg, mode)).encode()) % val_mod == 0)
         for end in ends:
             outcomes = {}   # outcome -> [(pre-end state, labels)]
@@ -774,7 +891,7 @@ def explore(task):
                     fine_ = witness(j, lst[-1][0], which=1)
                     if fine_ != coarse:
                         confirm(fine_, end, o)
-                    if len(samples) < 2 and j >= 4 and len(fine_) >= 3 and None not in rd and text not in rd:
+                    if len(samples) < 2 and j >= 4 and len(fine_) >= 3 and text not in rd:
                         samples.append({"config": cfg_name(cfg), "mode": mode, "end": end, "text": text,
                                         "two_of_its_chunkings": [coarse, fine_], "delivered": o[0],
                                         "completion": o[1], "consumer_saw_end_sentinel": o[2],
@@ -831,14 +948,25 @@ def explore(task):
                         record(f"chunking:{why}", size, make)
         else:
             d = next(iter(by_deliv))
-            if None not in rd and d not in rd:
+            absent = bool(cfg[0]) and not text.startswith(cfg[0])
+            if absent:
+                counts["prefix_absent_groups_judged_against_reference"] += 1
+            if d not in rd:
                 bad_group = True
-                near = sorted(rd, key=lambda r: (_diff(d, r, cfg) == "differs", abs(len(r) - len(d)), r))[0]
-                kind = _diff(d, near, cfg)
+                kind = _explain(d, text, cfg, rd)
+                if absent:
+                    # the text never showed the configured prefix: the class is named by how the stream ended
+                    counts["prefix_absent_groups_off_reference"] += 1
+                    if end in ("push_empty", "push_none"):
+                        where = "push-end"
+                    else:
+                        where = "llm_end:" + ("stop-in-text" if any(st in text for st in cfg[2]) else "no-stop-in-text")
                 seen = set()
                 for o1, lst in by_deliv[d]:
                     for s1, lab in lst:
                         why = lab[1] or lab[0] or "no-earlier-sign"
+                        if absent:
+                            why = where if why == "no-earlier-sign" else where + ":" + why
                         if why in seen:
                             continue
                         seen.add(why)
@@ -853,7 +981,8 @@ def explore(task):
                                 [(c1, end, o1)],
                             )
 
-                        record(f"reference:{shape}:{kind}:{why}", size, make)
+                        where_ = "prefix-absent" if absent else ("stop-list" if kind.startswith("cut-at-later") else shape)
+                        record(f"reference:{where_}:{kind}:{why}", size, make)
         # completion == delivered, for every terminal state
         for which, idx in (("completion", 1), ("completion-of-receiving-handler", 4)):
             if idx == 4 and mode != "pipe":
@@ -950,6 +1079,14 @@ def tasks(tier):
                     out.append((cfg, mode, lead, tuple(root), n, sp - 1, val_mod))
             for sh in SHAPES:
                 out.append((cfg, mode, sh, None, 0, 0, 3))
+    for cfg in sl_configs(tier):
+        syms = alphabet(cfg)
+        for mode in MODES:
+            for lead, n in families(cfg, tier, mode):
+                sp = 1 if n <= 5 else 2
+                out.append((cfg, mode, lead, (), sp - 1, 0, val_mod))
+                for root in itertools.product(syms, repeat=sp):
+                    out.append((cfg, mode, lead, tuple(root), n, sp - 1, val_mod))
     return out
 
 
@@ -966,7 +1103,7 @@ def run(rep, tier):
     else:
         # big sub-tries first
         ts.sort(key=lambda t: -(len(alphabet(t[0])) ** max(0, t[4] - len(t[3] or ()))))
-    budget = 48 if tier == "quick" else 17 * 60
+    budget = 56 if tier == "quick" else 17 * 60
     deadline = time.time() + budget
     done = 0
     by_sig = {}
@@ -991,7 +1128,10 @@ def run(rep, tier):
         if rep.violation(sig, v["what"] + f"  [{v['n']} (text, end) groups show this class]", v["replay"]):
             new += 1
     cfgs = configs()
-    rep.set("configs", len(cfgs))
+    sl_cfgs = sl_configs(tier)
+    rep.set("configs", len(cfgs) + len(sl_cfgs))
+    rep.set("configs_stoplist_family", len(sl_cfgs))
+    rep.set("stoplists", len({c[2] for c in sl_cfgs}))
     rep.set("modes", len(MODES))
     rep.set("tasks_planned", len(ts))
     rep.set("tasks_done", done)
@@ -1007,6 +1147,16 @@ def run(rep, tier):
         "alphabets": {repr(c): alphabet(c) for c in cfgs},
         "realistic_shapes": list(SHAPES),
         "end_protocols": {m: list(e) for m, e in ENDS.items()},
+        "stoplist_family": {
+            "stop_lists": "ordered lists of 1..2 distinct words over {x,y}, each <= 3 characters, together <= "
+                          f"{4 if tier == 'quick' else 5}; one of each x<->y pair unless the suffix is 'y'",
+            "prefixes": list(SL_PREFIXES), "suffixes": list(SL_SUFFIXES),
+            "alphabet": "a, x, y (+ the suffix character)",
+            "characters_per_text": {
+                f"suffix={sfx!r}": {fam: {m: sl_bound(tier, (">" if fam != "free" else None, sfx, ("x",)), fam, m)
+                                          for m in MODES} for fam in ("free", "lead", "absent")}
+                for sfx in SL_SUFFIXES},
+        },
     })
     rep.set("distinct_outcome_sets", rep.cov.get("groups_divergent", 0))
     rep.set("exhaustive", done == len(ts))
@@ -1026,7 +1176,13 @@ def run(rep, tier):
         "bound to the implementation by from-scratch replays on a real asyncio loop with an `async for` consumer",
         "enable_print / buffering (enable_buffer, wait_top_k_nonempty_lines) are off; whether the stream is terminated by a "
         "sentinel is counted (groups_without_end_sentinel), not demanded",
-        "a text whose prefix is absent has no reference string; only chunking independence and completion == delivered are demanded",
+        "a text that does not start with the configured prefix is read as 'nothing to remove': its reference is the text "
+        "with the suffix removed and cut at the first stop sequence (the same no-op rule the statement needs for a text "
+        "that does not end with the suffix); such groups are counted in prefix_absent_groups_judged_against_reference",
+        "with several stop sequences 'the first stop sequence' is the occurrence that starts first or the occurrence that "
+        "is complete first (they differ only when two occurrences overlap); both are accepted",
+        "stop-list family: abstract characters x / y stand for the characters of stop sequences, a for any other character; "
+        "exchanging x and y maps texts to texts, so one stop list of each x<->y pair is run (not with the suffix 'y')",
     ]
 
 
